@@ -863,6 +863,7 @@ def run(ctx: Ctx) -> None:
 
 # ---------------------------------------------------------------------------
 WITNESSES = [
+    {"name": "seeded-C13-11", "file": "core/parallel_execution/callable_parallel_execution.py", "old": "\n    def __init__(\n        self,\n        workers: Sequence[CallableType[ArgT, ReturnT]],\n        n_processes: int = N_CPUS,\n        use_threading: bool = False,\n        wait_time_between_fork: float = 0.0,\n        exceptions_to_re_raise: Sequence[type[Exception]] = (),\n    ) -> None:\n        \"\"\"\n        Args:\n            workers: The objects that perform the tasks.\n                Either pass one worker, and it will be forked in multiprocessing.\n                Or, when using multithreading or different workers, pass one worker\n                per input data.\n            n_processes: The maximum simultaneous number of threads,\n                if ``use_threading`` is True, or processes otherwise,\n                used to parallelize the execution.\n            use_threading: Whether to use threads instead of processes\n                to parallelize the execution.\n                Multiprocessing will copy (serialize) all the disciplines,\n                while threading will share all the memory.\n                This is important to note if you want to execute the same\n                discipline multiple times, in which case you shall use\n                multiprocessing.\n            wait_time_between_fork: The time to wait between two forks of the\n                process/thread.\n            exceptions_to_re_raise: The exceptions that should be raised again\n                when caught inside a worker. If ``None``, all exceptions coming from\n                workers are caught and the execution is allowed to continue.\n\n        Raises:\n            ValueError: If there are duplicated workers in ``workers`` when\n                using multithreading.\n        \"\"\"  # noqa: D205, D212, D415\n        self.workers = workers\n        self.n_processes = n_processes\n        self.use_threading = use_threading\n        self.wait_time_between_fork = wait_time_between_fork\n        self.__exceptions_to_re_raise = tuple(exceptions_to_re_raise)\n        self._check_unicity(workers)\n\n    def _check_unicity(self, objects: Any) -> None:\n        \"\"\"Check that the objects are unique.\n\n        Args:\n            objects: The objects to check.\n        \"\"\"\n        if self.use_threading:\n            ids = {id(obj) for obj in objects}\n            if len(ids) != len(objects):\n                msg = (\n                    \"When using multithreading, all workers shall be different objects.\"\n                )\n                raise ValueError(msg)\n\n    # TODO: API: let exec_callback always be iterable and renamed to callbacks.\n    def execute(\n        self,\n        inputs: Sequence[ArgT],\n        exec_callback: CallbackType | Iterable[CallbackType] = (),\n        task_submitted_callback: Callable[[], None] | None = None,\n    ) -> list[ReturnT | None]:\n        \"\"\"Execute all the processes.\n\n        Args:\n            inputs: The input values.\n            exec_callback: Callback functions called with the\n                pair (index, outputs) as arguments when an item is retrieved\n                from the processing. Index is the associated index\n                in inputs of the input used to compute the outputs.\n                If empty, no function is called.\n            task_submitted_callback: A callback function called when all the\n                tasks are submitted, but not done yet. If ``None``, no function\n                is called.\n\n        Returns:\n            The computed outputs.\n\n        Warnings:\n            This class relies on multiprocessing features, it is therefore\n            necessary to protect its execution with an ``if __name__ == '__main__':``\n            statement when working on Windows.\n        \"\"\"\n        if callable(exec_callback):\n            exec_callback = [exec_callback]\n\n        n_tasks = len(inputs)\n\n        tasks: list[int] | ListProxy[int] = list(range(n_tasks))[::-1]\n\n        queue_in: _QueueInType[ArgT]\n        queue_out: _QueueOutType[ReturnT]\n        processor: type[th.Thread | ForkProcess | SpawnProcess | ForkServerProcess]\n\n        # TODO: API: use subclass instead of if?\n        # Queue for workers.\n        if self.use_threading:\n            queue_in = queue.Queue()\n            queue_out = queue.Queue()\n            processor = th.Thread\n        else:\n            manager = get_multi_processing_manager()\n            queue_in = manager.Queue()\n            queue_out = manager.Queue()\n            tasks = manager.list(tasks)\n", "new": "\n    __manager_queues: tuple[_QueueInType[Any], _QueueOutType[Any]] | None\n    \"\"\"The input and output queues used for multiprocessing, created on first use.\"\"\"\n\n    def __init__(\n        self,\n        workers: Sequence[CallableType[ArgT, ReturnT]],\n        n_processes: int = N_CPUS,\n        use_threading: bool = False,\n        wait_time_between_fork: float = 0.0,\n        exceptions_to_re_raise: Sequence[type[Exception]] = (),\n    ) -> None:\n        \"\"\"\n        Args:\n            workers: The objects that perform the tasks.\n                Either pass one worker, and it will be forked in multiprocessing.\n                Or, when using multithreading or different workers, pass one worker\n                per input data.\n            n_processes: The maximum simultaneous number of threads,\n                if ``use_threading`` is True, or processes otherwise,\n                used to parallelize the execution.\n            use_threading: Whether to use threads instead of processes\n                to parallelize the execution.\n                Multiprocessing will copy (serialize) all the disciplines,\n                while threading will share all the memory.\n                This is important to note if you want to execute the same\n                discipline multiple times, in which case you shall use\n                multiprocessing.\n            wait_time_between_fork: The time to wait between two forks of the\n                process/thread.\n            exceptions_to_re_raise: The exceptions that should be raised again\n                when caught inside a worker. If ``None``, all exceptions coming from\n                workers are caught and the execution is allowed to continue.\n\n        Raises:\n            ValueError: If there are duplicated workers in ``workers`` when\n                using multithreading.\n        \"\"\"  # noqa: D205, D212, D415\n        self.workers = workers\n        self.n_processes = n_processes\n        self.use_threading = use_threading\n        self.wait_time_between_fork = wait_time_between_fork\n        self.__exceptions_to_re_raise = tuple(exceptions_to_re_raise)\n        self.__manager_queues = None\n        self._check_unicity(workers)\n\n    def _check_unicity(self, objects: Any) -> None:\n        \"\"\"Check that the objects are unique.\n\n        Args:\n            objects: The objects to check.\n        \"\"\"\n        if self.use_threading:\n            ids = {id(obj) for obj in objects}\n            if len(ids) != len(objects):\n                msg = (\n                    \"When using multithreading, all workers shall be different objects.\"\n                )\n                raise ValueError(msg)\n\n    # TODO: API: let exec_callback always be iterable and renamed to callbacks.\n    def execute(\n        self,\n        inputs: Sequence[ArgT],\n        exec_callback: CallbackType | Iterable[CallbackType] = (),\n        task_submitted_callback: Callable[[], None] | None = None,\n    ) -> list[ReturnT | None]:\n        \"\"\"Execute all the processes.\n\n        Args:\n            inputs: The input values.\n            exec_callback: Callback functions called with the\n                pair (index, outputs) as arguments when an item is retrieved\n                from the processing. Index is the associated index\n                in inputs of the input used to compute the outputs.\n                If empty, no function is called.\n            task_submitted_callback: A callback function called when all the\n                tasks are submitted, but not done yet. If ``None``, no function\n                is called.\n\n        Returns:\n            The computed outputs.\n\n        Warnings:\n            This class relies on multiprocessing features, it is therefore\n            necessary to protect its execution with an ``if __name__ == '__main__':``\n            statement when working on Windows.\n        \"\"\"\n        if callable(exec_callback):\n            exec_callback = [exec_callback]\n\n        n_tasks = len(inputs)\n\n        tasks: list[int] | ListProxy[int] = list(range(n_tasks))[::-1]\n\n        queue_in: _QueueInType[ArgT]\n        queue_out: _QueueOutType[ReturnT]\n        processor: type[th.Thread | ForkProcess | SpawnProcess | ForkServerProcess]\n\n        # TODO: API: use subclass instead of if?\n        # Queue for workers.\n        if self.use_threading:\n            queue_in = queue.Queue()\n            queue_out = queue.Queue()\n            processor = th.Thread\n        else:\n            manager = get_multi_processing_manager()\n            if self.__manager_queues is None:\n                # Creating a queue costs a round trip to the manager process:\n                # do it once for all the executions.\n                self.__manager_queues = (manager.Queue(), manager.Queue())\n            queue_in, queue_out = self.__manager_queues\n            tasks = manager.list(tasks)\n", "expect": "13.11", "note": "CallableParallelExecution reuses its multiprocessing queues between executions: "},
     {"name": "seeded-C13-10", "file": "caches/base_full_cache.py", "old": "                # The input data is already cached => we don't store it again.\n                self._last_accessed_index.value = index\n                return False\n", "new": "                # The input data is already cached => we don't store it again.\n                return False\n", "expect": "13.10", "note": "BaseFullCache: a cache hit on already stored inputs no longer updates the last a"},
     {"name": "parallel-steps-skip-the-last-component", "file": "utils/derivatives/finite_differences.py", "old": "            f_0 = outputs[0]\n            for i in range(n_dim):", "new": "            f_0 = outputs[0]\n            for i in range(n_dim - 1):", "expect": "13.7"},
     {"name": "linearization-drops-failed-slots", "file": _DPL, "old": "        return [out.jacobian if out is not None else None for out in ordered_outputs]", "new": "        return [out.jacobian for out in ordered_outputs if out is not None]", "expect": "13.8"},
